@@ -477,3 +477,191 @@ class Gen:
                 if cur_t == 'none':
                     break
         return out
+
+
+# -------------------------------------------------------------------- store histories (C05, C06, C14)
+def _apply_val(t, v, op):
+    """value-level effect of a (valid) op; used only to keep generated histories meaningful"""
+    k = kind(t)
+    o = op[0]
+    if k in ('bl', 'bv'):
+        if o == 'set':
+            i = op[1]
+            return v[:1 + i] + op[2] + v[2 + i:]
+        if o == 'app':
+            return v + op[1]
+        if o == 'pop':
+            return v[:-1]
+    if o == 'set':
+        i = op[1]
+        return v[:1 + i] + [op[2]] + v[2 + i:]
+    if o == 'app':
+        return v + [op[1]]
+    if o == 'pop':
+        return v[:-1]
+    if o == 'chg':
+        return ['u', op[1], op[2]]
+    raise ValueError(o)
+
+
+class StoreGen:
+    """generates store histories: child views, mutations through any held view, copies, snapshots.
+    Keeps hook keys valid (no pop on a list / no change on a union that has held children)."""
+
+    def __init__(self, g, t, v):
+        self.g = g
+        self.views = [dict(t=t, v=v, hook=None, kids=False)]
+
+    def child_keys(self, view):
+        t, v = view['t'], view['v']
+        k = kind(t)
+        if is_basic(t):
+            return []
+        if k in ('vec', 'list'):
+            if is_basic(t[1]) or kind(t[1]) in ('Bv', 'Bl'):
+                return []
+            return list(range(len(v) - 1))
+        if k == 'cont':
+            return [i for i, f in enumerate(t[1:]) if not is_basic(f) and kind(f) not in ('Bv', 'Bl')]
+        if k == 'union':
+            o = t[1:][int(v[1])]
+            if o == 'none' or is_basic(o) or kind(o) in ('Bv', 'Bl'):
+                return []
+            return [0]
+        return []
+
+    def child_tv(self, view, key):
+        t, v = view['t'], view['v']
+        k = kind(t)
+        if k in ('vec', 'list'):
+            return t[1], v[1 + key]
+        if k == 'cont':
+            return t[1 + key], v[1 + key]
+        if k == 'union':
+            return t[1:][int(v[1])], v[2]
+
+    def propagate(self, r):
+        view = self.views[r]
+        while view['hook'] is not None:
+            p, key = view['hook']
+            parent = self.views[p]
+            pt = parent['t']
+            if kind(pt) == 'union':
+                parent['v'] = ['u', parent['v'][1], view['v']]
+            else:
+                parent['v'] = parent['v'][:1 + key] + [view['v']] + parent['v'][2 + key:]
+            view = parent
+
+    def mutable(self, view):
+        t = view['t']
+        if is_basic(t):
+            return False
+        return kind(t) in ('list', 'vec', 'bl', 'bv', 'cont', 'union')
+
+    def one_op(self, view):
+        g = self.g
+        r = g.rng
+        t, v = view['t'], view['v']
+        k = kind(t)
+        if k == 'list':
+            ln = len(v) - 1
+            choices = []
+            if ln < t[2]:
+                choices += ['app'] * 3
+            if ln > 0:
+                choices += ['set'] * 3
+                if not view['kids']:
+                    choices += ['pop'] * 3
+            if not choices:
+                return None
+            c = r.choice(choices)
+            if c == 'app':
+                return ['app', g.val(t[1], 5)]
+            if c == 'pop':
+                return ['pop']
+            return ['set', r.choice([0, ln - 1, r.randrange(ln)]), g.val(t[1], 5)]
+        if k == 'bl':
+            ln = len(v) - 1
+            choices = (['app'] * 3 if ln < t[1] else []) + (['set', 'pop', 'pop'] if ln > 0 else [])
+            if not choices:
+                return None
+            c = r.choice(choices)
+            if c == 'app':
+                return ['app', r.choice('01')]
+            if c == 'pop':
+                return ['pop']
+            return ['set', r.choice([0, ln - 1, r.randrange(ln)]), r.choice('01')]
+        if k == 'vec':
+            return ['set', r.randrange(t[2]), g.val(t[1], 5)]
+        if k == 'bv':
+            return ['set', r.randrange(t[1]), r.choice('01')]
+        if k == 'cont':
+            i = r.randrange(len(t) - 1)
+            return ['set', i, g.val(t[1 + i], 6)]
+        if k == 'union':
+            if view['kids']:
+                return None
+            opts = t[1:]
+            sel = r.randrange(len(opts))
+            return ['chg', sel, 'none' if opts[sel] == 'none' else g.val(opts[sel], 6)]
+        return None
+
+    def history(self, n, p_bad=0.0):
+        g = self.g
+        r = g.rng
+        ops = []
+        for _ in range(n):
+            c = r.random()
+            cand_child = [(i, k) for i, vw in enumerate(self.views) for k in self.child_keys(vw)]
+            if c < 0.25 and cand_child and len(self.views) < 9:
+                i, key = r.choice(cand_child)
+                ct, cv = self.child_tv(self.views[i], key)
+                self.views[i]['kids'] = True
+                self.views.append(dict(t=ct, v=cv, hook=(i, key), kids=False))
+                ops.append(['child', i, key])
+            elif c < 0.33 and len(self.views) < 9:
+                i = r.randrange(len(self.views))
+                vw = self.views[i]
+                if not is_basic(vw['t']):
+                    self.views.append(dict(t=vw['t'], v=vw['v'], hook=None, kids=False))
+                    ops.append(['copy', i])
+            elif c < 0.45:
+                ops.append(['snap', r.randrange(len(self.views))])
+            else:
+                # prefer deeper views: that is where propagation matters
+                idx = [i for i, vw in enumerate(self.views) if self.mutable(vw)]
+                if not idx:
+                    continue
+                i = r.choice(idx + [x for x in idx if self.views[x]['hook'] is not None] * 2)
+                vw = self.views[i]
+                if p_bad > 0 and r.random() < p_bad:
+                    bad = g.invalid_op(vw['t'], vw['v'])
+                    if bad is not None:
+                        ops.append(['bad', i, bad])
+                        continue
+                op = self.one_op(vw)
+                if op is None:
+                    continue
+                vw['v'] = _apply_val(vw['t'], vw['v'], op)
+                self.propagate(i)
+                ops.append(['mut', i, op])
+        return ops
+
+
+def nested_ty(g, depth):
+    """a composite type with mutable composite children (for child-view histories)"""
+    r = g.rng
+    if depth <= 0:
+        return g.mutable_ty(1)
+    k = r.choice(['cont', 'cont', 'list', 'vec', 'union'])
+    if k == 'cont':
+        n = r.choice([1, 2, 3, 4, 5])
+        return ['cont'] + [nested_ty(g, depth - 1) if r.random() < 0.6 else g.ty(1) for _ in range(n)]
+    if k == 'list':
+        return ['list', nested_ty(g, depth - 1), r.choice([1, 2, 3, 4, 5, 8, 9, 2**40])]
+    if k == 'vec':
+        return ['vec', nested_ty(g, depth - 1), r.choice([1, 2, 3, 4, 5])]
+    opts = [nested_ty(g, depth - 1) for _ in range(r.choice([1, 2, 3]))]
+    if r.random() < 0.3:
+        opts = ['none'] + opts
+    return ['union'] + opts
